@@ -1,6 +1,6 @@
 (** Protocol operations for C16 (see Lib/Val.v). *)
 From Coq Require Import ZArith List Bool String.
-From Low Require Import Lib.Bits Lib.BitSeq Lib.Lex Lib.Bytes Lib.Val Model.Sigbits Spec.SigbitsSpec.
+From Low Require Import Lib.Bits Lib.BitSeq Lib.Lex Lib.Bytes Lib.Val Model.Sigbits Spec.SigbitsSpec Spec.SigbitsSpec16x.
 Import ListNotations.
 Open Scope string_scope.
 Open Scope Z_scope.
@@ -44,5 +44,23 @@ Definition ops_C16 : list opdef := [
        | [keys; s; e; m] => match as_zss keys, as_z s, as_z e, as_z m with
            | Some keys, Some s, Some e, Some m => vpairZL (spec_CountPrefixes keys s e m)
            | _, _, _, _ => VBad end
+       | _ => VBad end) |};
+  (* sigbits.New(keys).CountPrefixes(s, s+1, m): a range of one key (keys in any order) *)
+  {| op_name := "sigbits.CountPrefixes/single";
+     op_run := fun a => match a with
+       | [keys; s; m] => match as_zss keys, as_z s, as_z m with
+           | Some keys, Some s, Some m =>
+               if keys_okb keys && (0 <=? s) && (s <? zlen keys) && (1 <=? m) then
+                 match New keys with
+                 | Some sb => match CountPrefixes sb s (s + 1) m with Some p => vpairZL p | None => VPanic end
+                 | None => VPanic
+                 end
+               else VBad
+           | _, _, _ => VBad end
+       | _ => VBad end;
+     op_spec := fun_spec (fun a => match a with
+       | [keys; s; m] => match as_z m with
+           | Some m => vpairZL (spec_CountPrefixes_single m)
+           | None => VBad end
        | _ => VBad end) |}
 ].
